@@ -172,12 +172,7 @@ end
 
 /-! ### reader primitives keep the cursor inside the buffer and never trip the overrun guard -/
 
-theorem Inp.rd_zero (inp : Inp) : ∀ p, inp.len ≤ p → inp.rd p = 0 := by
-  intro p hp
-  unfold Inp.rd Inp.len at *
-  split
-  · omega
-  · rfl
+theorem Inp.rd_zero (inp : Inp) : ∀ p, inp.len ≤ p → inp.rd p = 0 := inp.nul
 
 /-- started inside the buffer (`pos ≤ len`), `f` ends inside the buffer and does not execute UB -/
 structure LSafe (len : Nat) (f : L α) : Prop where
